@@ -32,6 +32,11 @@ def run(ctx):
     from . import guardrules as R_
 
     R_.check_scalar_importer_rejects(ctx, "E4.import-total", P)
+    # ... and the zero test every scalar importer starts with returns (no arithmetic abort for any byte pattern):
+    # an abort in the decoder is a value that does not survive the round trip
+    from . import flow as F_
+
+    F_.check_iszero(ctx, P, "E8.iszero", check_asserts=True, need=())
     check_handwritten_serde(ctx, P)
     check_enum_key_wrapper(ctx, P)
     ctx.assume("serde_bare, hex and the backend's point/scalar codecs are injective and mutually inverse (dependency contract)")
